@@ -50,6 +50,7 @@ to a task that has already run.
             # from the db if the checker changed.
             values = self.dep_manager.get_values(task.name)
             result = self.dep_manager.get_result(task.name)
+            ignored = self.dep_manager.status_is_ignore(task)
 
             missing_deps = [dep for dep in task.file_dep
                             if not os.path.exists(dep)]
@@ -70,6 +71,8 @@ to a task that has already run.
 
             task.values = values
             self.dep_manager.save_success(task, result_hash=result)
+            if ignored:
+                self.dep_manager.ignore(task)
             write("processed {}\n".format(task.name))
 
         self.dep_manager.close()
